@@ -66,7 +66,10 @@ def reparse_if_needed(student_code=None, report=MAIN_REPORT):
     cait = report[TOOL_NAME]
     if student_code is None:
         student_code = report.submission.main_code
-        steal_from_source = report[SOURCE_TOOL_NAME]['success']
+        # The Source tool's tree is of use only if it is the tree of this very
+        # code (it may have verified other code, or another section, since)
+        steal_from_source = (report[SOURCE_TOOL_NAME]['success'] and
+                             report[SOURCE_TOOL_NAME].get('ast_code') == student_code)
     else:
         steal_from_source = False
     # Have we already parsed this code? (Only successful parses are kept.)
